@@ -311,9 +311,13 @@ def mutator_op(rng, name, present):
     """a mutation that would succeed in a write context"""
     if name == "add-big":
         kinds = [k for k in ("emg", "data3d", "force3d", "platdata") if A.BLOCKTYPE[k] not in present]
-        return (("add", None, None), big_spec(rng, rng.choice(kinds)))
+        if kinds:
+            return (("add", None, None), big_spec(rng, rng.choice(kinds)))
+        name = "add"                 # (all four big kinds are in the file already)
     if name == "add":
         kinds = [k for k in A.KINDS if A.BLOCKTYPE[k] not in present]
+        if not kinds:                # (every decodable type is in the file: replace one instead)
+            return (("replace", None, None), C.gen_spec(rng, rng.choice([k for k in A.KINDS if A.BLOCKTYPE[k] in present])))
         return (("add", None, None), C.gen_spec(rng, rng.choice(kinds)))
     if name == "remove":
         return (("remove", rng.choice(sorted(present))), None)
